@@ -10,6 +10,7 @@ uses only the non-recursive queries resources()/windows() and plain arithmetic.
 import random
 
 from vmon import env  # noqa: F401
+from vmon.suitemon import suite_case
 from vmon.simkit import Mon
 from vmon.models.memmap import translate_tree
 
@@ -36,11 +37,15 @@ def n_cases(tier):
 
 
 def gen_case(rng, tier, idx):
+    if idx == 0:
+        return {"suite": True}     # the repository\'s own test-suite under the monitors (vmon/suitemon.py)
     return {"root_aw": rng.choice([3, 4, 5, 6, 7, 8, 9, 10, 11, 12, 12, 16, 24, 32, 54, 64]), "depth": rng.randint(1, 5),
             "root_dw": rng.choice([8, 8, 16, 32, 64])}
 
 
 def run_case(case):
+    if case.get("suite"):
+        return suite_case(Mon(), ['C03'], ['C03_walks', 'C03_decodes'])
     rng = random.Random(case["stim_seed"])
     mon = Mon()
     all_maps = []           # every map created for the tree
@@ -52,7 +57,7 @@ def run_case(case):
         st["n"] += 1
         return rng.choice([f"r{st['n']}", (f"r{st['n']}",), ("blk", st["n"]), (f"r{st['n']}", "lo")])
 
-    def build(aw, dw, depth, leaf_only=False, min_align=0, lvl=1):
+    def build(aw, dw, depth, leaf_only=False, min_align=0, lvl=1, ancestors=()):
         al = rng.choice([0, 0, 1, 2]) if aw > 3 else 0
         al = max(al, min_align)
         if al >= aw:
@@ -88,15 +93,27 @@ def run_case(case):
                     continue
                 all_res.append(r)
                 desc["items"].append(("res", s, e))
+                if ancestors and rng.random() < 0.3:
+                    # asked too early: the map this resource lives in is not attached to its future parents yet
+                    for anc in ancestors:
+                        try:
+                            anc.find_resource(r)
+                            early = True
+                        except KeyError:
+                            early = False
+                        mon.count("early_lookups")
+                        if early:
+                            mon.run(lambda: mon.fail("find_missing_keyerror",
+                                                     "find_resource() found a resource of a map that is not attached yet"))
             else:
                 mode = rng.choice(["same", "same", "sparse", "dense"])
                 caw = rng.randint(1, aw - 1)
                 if mode == "same":
-                    child, cdesc = build(caw, dw, depth - 1, lvl=lvl + 1)
+                    child, cdesc = build(caw, dw, depth - 1, lvl=lvl + 1, ancestors=ancestors + (m,))
                     kw = {}
                 elif mode == "sparse":
                     cdw = rng.choice([w for w in (4, 8, 16, 32) if w < dw] or [dw])
-                    child, cdesc = build(caw, cdw, depth - 1, lvl=lvl + 1)
+                    child, cdesc = build(caw, cdw, depth - 1, lvl=lvl + 1, ancestors=ancestors + (m,))
                     kw = {"sparse": True} if cdw != dw else {}
                     if cdw == dw:
                         mode = "same"
@@ -107,7 +124,7 @@ def run_case(case):
                     ratio = rng.choice(ratios)
                     lg = ratio.bit_length() - 1
                     caw = rng.randint(lg + 1, max(lg + 1, min(aw - 1 + lg, 12)))
-                    child, cdesc = build(caw, dw // ratio, 1, leaf_only=True, min_align=lg, lvl=lvl + 1)
+                    child, cdesc = build(caw, dw // ratio, 1, leaf_only=True, min_align=lg, lvl=lvl + 1, ancestors=ancestors + (m,))
                     kw = {"sparse": False}
                 addr = None
                 if rng.random() < 0.3:
@@ -139,7 +156,11 @@ def run_case(case):
         by_id = {e[0]: e for e in exp}
         for r in all_res:
             if id(r) in attached:
-                i = root.find_resource(r)
+                try:
+                    i = root.find_resource(r)
+                except KeyError:
+                    mon.fail("find_resource_eq", f"find_resource() raises KeyError for the resource all_resources() reports as "
+                                                 f"{by_id[id(r)][1:]}")
                 mon.eq("find_resource_eq",
                        (id(i.resource), tuple(tuple(p) for p in i.path), i.start, i.end, i.width), by_id[id(r)],
                        "find_resource()")
